@@ -302,6 +302,9 @@ func (w *World) options() []gnet.Option {
 	if c.SndBuf > 0 {
 		opts = append(opts, gnet.WithSocketSendBuffer(c.SndBuf))
 	}
+	if c.KeepAlive > 0 {
+		opts = append(opts, gnet.WithTCPKeepAlive(time.Duration(c.KeepAlive)*time.Second))
+	}
 	if c.Ticker {
 		opts = append(opts, gnet.WithTicker(true))
 	}
